@@ -126,7 +126,8 @@ class ImportEnv(C.CsrEnv):
             o, dflt, clo = args[0], args[1], args[2]
             if o.payload is None or z3.is_false(z3.simplify(o.cond)):
                 d = dflt.e
-                return one(Z(z3.BitVecVal(d.as_long(), 16) if z3.is_int_value(d) else d))
+                mw = re.search(r"map_or::<u(8|16|32)", c)
+                return one(Z(z3.BitVecVal(d.as_long(), int(mw.group(1)) if mw else 16) if z3.is_int_value(d) else d))
             res = list(eng.call_closure(clo, [o.payload], st))
             if len(res) != 1 or res[0][0] is not st:
                 raise Unsupported("map_or closure with more than one path")
@@ -205,6 +206,12 @@ def narrowing_cast(v, ty, kind):
     m = re.match(r"^u(8|16|32)$", ty.strip())
     if kind == "IntToInt" and m and isinstance(v, Z) and z3.is_int(v.e):
         return Z(v.e % (2 ** int(m.group(1))))
+    if kind == "IntToInt" and m and isinstance(v, Z) and z3.is_bv(v.e):
+        w = int(m.group(1))
+        if v.e.size() > w:
+            return Z(z3.Extract(w - 1, 0, v.e))
+        if v.e.size() < w:
+            return Z(z3.ZeroExt(w - v.e.size(), v.e))
     return v
 
 
